@@ -134,7 +134,8 @@ func c03Recipes() []c03Recipe {
 			set(e, e.b.NewFDiv(x, x))
 			set(e, e.b.NewFRem(x, x))
 			set(e, e.b.NewFNeg(x))
-			set(e, e.b.NewFCmp(enum.FPredOLT, x, x))
+			fc := set(e, e.b.NewFCmp(enum.FPredOLT, x, x))
+			set(e, e.b.NewSelect(fc, x, x))
 			set(e, e.b.NewFCmp(enum.FPredUNE, x, x))
 		})
 	}
@@ -143,10 +144,31 @@ func c03Recipes() []c03Recipe {
 		add("icmp/"+op, func(e *c03Env) {
 			x := e.p[op]
 			for _, pr := range []enum.IPred{enum.IPredEQ, enum.IPredNE, enum.IPredSGT, enum.IPredULE} {
-				set(e, e.b.NewICmp(pr, x, x))
+				c := set(e, e.b.NewICmp(pr, x, x))
+				// a typed use of the result: its type (i1, <N x i1>, <vscale x N x i1>) is spelled in the text
+				set(e, e.b.NewSelect(c, x, x))
 			}
 		})
 	}
+	// comparisons of a fixed and a scalable vector of the same length in one
+	// function (whatever is shared between comparisons must keep them apart)
+	add("cmp-fixed-and-scalable-same-length", func(e *c03Env) {
+		for _, op := range []string{"sv", "vp", "sv", "vf"} {
+			x := e.p[op]
+			var c value.Value
+			if op == "vf" {
+				c = set(e, e.b.NewFCmp(enum.FPredOGT, x, x))
+			} else {
+				c = set(e, e.b.NewICmp(enum.IPredNE, x, x))
+			}
+			set(e, e.b.NewSelect(c, x, x))
+		}
+		svf := types.NewVector(2, types.Float)
+		svf.Scalable = true
+		z := set(e, e.b.NewSIToFP(e.p["sv"], svf))
+		fc := set(e, e.b.NewFCmp(enum.FPredOLT, z, z))
+		set(e, e.b.NewSelect(fc, z, z))
+	})
 	add("select", func(e *c03Env) {
 		set(e, e.b.NewSelect(e.p["b"], e.p["i"], e.p["j"]))
 		set(e, e.b.NewSelect(e.p["b"], e.p["v"], e.p["v2"]))
